@@ -475,6 +475,10 @@ def run(tier):
             nviol += 1
             ctx.violation({"layer": "pl", "cases": [c], "run_a": a[:1500], "run_b": b[:1500], "why": "two runs of the same program from the same scheduler seed differ (random values or lazy statics escaped the scheduler's control)"})
             continue
+        a, _, lzlive = a.rpartition(" LZ=")
+        if " T=ok" in a and any(x != "0" for x in lzlive.split(",")):
+            nviol += 1
+            ctx.violation({"layer": "pl", "cases": [c], "implementation_answer": a[:1500], "why": "lazy-static values outlive their execution: alive at each execution start, then after the run = " + lzlive})
         body, _, term = a.rpartition(" T=")
         execs = [x.strip() for x in body.split("X ")[1:]] if body.startswith("X") else []
         w = c.split(" ")
